@@ -723,7 +723,7 @@ pub fn subs() -> Vec<Box<dyn DynSub>> {
     vec![Box::new(PropSub::<Case> {
         name: "threads-fresh-process",
         rule: "proptest: T in {2,4,8,16,32} threads, each with its own program of 1-3 tasks on its own instances (C01 one-shots, C02 histories incl. update_rayon/mmap, C03 XOF-reader histories, C06 histories on C hashers of both library builds with CPU detection left to race, bursts of 50-400 construct-update-finalize rounds in every mode on either library, extended-output readers consumed in 100-1500 small pieces through fill / io::Read / read_exact / the XofReader trait, and long streams of 60 KiB-3 MiB through update_reader/io::copy/update_mmap(_rayon)/update_rayon/write_all; one case in eight has every thread streaming at once, one in eight every thread reading extended output in small pieces at once, one in ten 3-12 threads all inside update_rayon / update_mmap_rayon on 1.2-6.5 MB each, one in ten 2-12 threads each handing 1-7 MB to one blake3_hasher_update call of a C library build), started together by a barrier in a FRESH child process and repeated 12x (quick) / 40x (thorough); oracle: every output of every thread equals the spec model (what the program yields alone) and the process exits cleanly; non-trivial = >=2 threads whose programs both hash > 16 chunks",
-        cases: (320, 4_000),
+        cases: (320, 2_400),
         strategy,
         classify,
         check,
@@ -733,7 +733,7 @@ pub fn subs() -> Vec<Box<dyn DynSub>> {
     Box::new(PropSub::<FirstCase> {
         name: "first-calls",
         rule: "proptest: a FRESH child process with 2-16 threads, each with its own instance (Rust crate, C assembly build, C intrinsics build, or mixed), input (0-300000 bytes, mostly one update > 8 KiB) and mode; expected outputs come from the spec model before any library code has run; the threads are released by a spin barrier (optional sub-microsecond stagger) so that their very first calls, and with them CPU-feature detection, happen at the same instant; then 60 (quick) / 400 (thorough) further rounds in the same process with the C libraries' detection cache reset to 'undefined' before each; oracle: every output equals what the thread yields alone; confirm-by-rerun as above; non-trivial = >=2 threads whose first call is one update of more than 8 KiB",
-        cases: (160, 2_000),
+        cases: (160, 1_200),
         strategy: first_strategy,
         classify: classify_first,
         check: check_first,
